@@ -107,6 +107,15 @@ def fault_programs(rng, w, n):
         for _ in range(max(2, n // 20)):
             v = rng.choice([0, 1, 2, 3, 5, 8, 9, -1, -7, -8, -9, 16, 17] + vals)
             out.append((src, [str(v)], 'length_' + el))
+        # lengths whose size in bytes wraps around the word (length * w, or (length + 7) / 8): the largest sane length, one more,
+        # and the lengths at which k * 256^w / w is passed
+        M = 256 ** w; H = M // 2
+        wraps = {(H - 1) // w, (H - 1) // w + 1, H - 1, H - 8, M // 8 if w > 1 else 1}
+        for k in range(1, w):
+            wraps |= {k * M // w, k * M // w + 1, k * M // w + 2}
+        srcw = ('empty @is_you(int n) { write("pre "); int[] small = [7, 8]; %s x[n]; write(x.length); write(small[0]); write(small[1]); write(" post"); }' % el)
+        for v in sorted(x for x in wraps if 0 < x < H):
+            out.append((srcw, [str(v)], 'two_lengthwrap_' + el))
         src2 = ('empty f(int n) { %s x[n]; write(x.length); } empty @is_you(int n) { write("pre "); for (int i = 0; i < 3; i += 1) { f(n + i); } write(" post"); }' % el)
         for _ in range(max(1, n // 40)):
             out.append((src2, [str(rng.choice([0, 1, -1, -2, -3, -8, -9, 5]))], 'length_call_' + el))
@@ -121,7 +130,7 @@ def fault_programs(rng, w, n):
     rng.shuffle(out)
     if n >= len(out): return out
     # the ordering family is always represented by the out-of-range index with a zero and a non-zero divisor, and the in-range control
-    must = [o for o in out if o[2].startswith('two_') and o[1][0] in ('3', '0') and o[1][1] in ('0', '1')]
+    must = [o for o in out if o[2].startswith('two_') and (o[2].startswith('two_lengthwrap') or (o[1][0] in ('3', '0') and o[1][1] in ('0', '1')))]
     rest = [o for o in out if o not in must]
     return must + rest[:max(0, n - len(must))]
 
@@ -196,6 +205,13 @@ def operator_programs(w):
     for op in BINOPS:
         ty = 'int' if op in '+-*/%' else 'bool'
         three(lambda x, y, op=op: '%s %s %s' % (x, op, y), ty, 'bin' + op)
+    # one operand a literal (a lowering may special-case identity or absorbing operands - on the correct side only)
+    for op in BINOPS:
+        ty = 'int' if op in '+-*/%' else 'bool'
+        for c in ('0', '1', '(-1)', '2', '255', '256'):
+            three(lambda x, y, op=op, c=c: '%s %s %s' % (c, op, x), ty, 'lit%s%s_l' % (c, op))
+            if not (op in '/%' and c == '0'):
+                three(lambda x, y, op=op, c=c: '%s %s %s' % (x, op, c), ty, 'lit%s%s_r' % (c, op))
     three(lambda x, y: '-%s' % x, 'int', 'neg')
     three(lambda x, y: '+%s' % x, 'int', 'pos')
     three(lambda x, y: '(%s != 0) and (%s != 0)' % (x, y), 'bool', 'and')
